@@ -588,7 +588,7 @@ def c08_n2(ctx):
             # slice::first(REQS)@Some.0.start_offset   or   Option::map(slice::first(REQS), closure returning .start_offset)
             if re.match(r"^\(slice::%s\(%s\)\)@Some\.0(\.\*)?\.%s$" % (pick, re.escape(reqs_var), fld), at_):
                 picked.append(at_)
-            elif a[0] == "call" and (callee_name(a) or "").split("::")[-1] in ("unwrap_or", "map_or", "unwrap_or_default", "unwrap_or_else"):
+            elif a[0] == "call" and (callee_name(a) or "").split("::")[-1] in ("unwrap_or", "map_or", "unwrap_or_default", "unwrap_or_else") and re.search(r"slice::(first|last)\(", at_):
                 inner = [x for x in walk(a) if x[0] == "call" and (callee_name(x) or "").endswith("slice::%s" % pick) and x[3] and expr_str(simp(x[3][0])) == reqs_var]
                 clo = [x for x in walk(a) if x[0] == "agg" and x[1] == "closure"]
                 body = ""
